@@ -54,7 +54,7 @@ func (a *c05) inLocation1(v ssa.Value, memo map[ssa.Value]int, helpers map[*ssa.
 		}
 		return false
 	case *ssa.Call:
-		if x.Call.IsInvoke() {
+		if x.Call.IsInvoke() && a.seamTarget(x) == nil {
 			return false
 		}
 		if c05IsTimeMethod(x, "In") && len(x.Call.Args) == 2 {
